@@ -53,7 +53,17 @@ Pool3 == <<
   << <<1,2,0,0>>, <<0,1,1,0>>, <<1,0,2,1>>, <<0,1,0,1>> >>,
   << <<0,1,0,0>>, <<0,0,1,0>>, <<0,0,0,1>>, <<1,0,0,0>> >>,
   << <<3,0,0,0>>, <<0,3,0,0>>, <<0,0,3,0>>, <<0,0,0,3>> >> >>
-PoolOf(dim) == IF dim = 2 THEN Pool2 ELSE Pool3
+\* transformations of the projective line (2 x 2)
+Pool1 == <<
+  << <<1,1>>, <<0,1>> >>,          \* translation
+  << <<2,0>>, <<0,1>> >>,          \* scaling
+  << <<0,1>>, <<1,0>> >>,          \* x -> 1/x (moves the point at infinity)
+  << <<1,2>>, <<3,4>> >>,          \* generic, det -2
+  << <<2,-1>>, <<1,1>> >>,         \* generic, det 3
+  << <<-1,0>>, <<0,-1>> >>,        \* a multiple of the identity
+  << <<1,0>>, <<1,1>> >>,          \* fixes 0, moves infinity
+  << <<3,-2>>, <<-1,1>> >> >>      \* det 1
+PoolOf(dim) == IF dim = 1 THEN Pool1 ELSE IF dim = 2 THEN Pool2 ELSE Pool3
 
 RECURSIVE MatPow(_, _)
 MatPow(M, k) == IF k = 0 THEN Ident(Len(M)) ELSE LET P == MatPow(M, k - 1) IN MatMul(M, P)     \* k >= 0
